@@ -2,8 +2,24 @@
 import re
 
 PROPS = {
+    "C03": {
+        "modules": ["Ark.Props.C03"],
+        "claimed": False,
+        "rule": "one op line per point operation on a pair of representatives; distinct = distinct op line; non-trivial = not all coordinates in {0,1}",
+        "exhaustive": ["all ordered pairs of representatives (several projective rescalings, all identity forms) on six SW curves over F_13, one over F_49, and TE curves over F_13 / F_127 (quick); more in thorough"],
+        "partial": [],
+        "assumptions": ["characteristic != 2 (and the curve equation for the branches that need it) are hypotheses of the theorems"],
+    },
+    "C17": {
+        "modules": ["Ark.Props.C17"],
+        "claimed": False,
+        "rule": "one op line per MLE / multivariate-polynomial operation; distinct = distinct op line; non-trivial = some operand outside {0,1}",
+        "exhaustive": ["all tables with entries in a small set over F_5 and F_13 for 0..3 variables x all Boolean points, relabel windows and partial assignments"],
+        "partial": [],
+        "assumptions": ["num_vars < 64 (1 << num_vars does not wrap)"],
+    },
     "C01": {
-        "modules": ["Ark.Props.C01a", "Ark.Props.C01b", "Ark.Props.C01c", "Ark.Props.C01d", "Ark.Props.C01e", "Ark.Props.FieldOpsGeneric"],
+        "modules": ["Ark.Props.C01a", "Ark.Props.C01b", "Ark.Props.C01c", "Ark.Props.C01d", "Ark.Props.C01e", "Ark.Props.C01f", "Ark.Props.FieldOpsGeneric"],
         "rule": "one op line per field operation on a configuration of the zoo (N=1..13 limbs, with/without spare bit, "
                 "derived and trait-default arithmetic, shipped test-curve fields); operands are raw Montgomery residues; "
                 "distinct = distinct op line; non-trivial = some operand outside {0,1}",
